@@ -217,6 +217,7 @@ type tr struct {
 	loopEntry map[int]Env // state on entry to each loop (for at_loop)
 	loopHeadEnv map[int]Env // state at the head of the current iteration of each loop (for at_head)
 	calledResults []Term
+	spawnOnly     bool // translating the call of a go statement: assert the callee's preconditions only
 	hasRecover bool
 }
 
